@@ -6,7 +6,7 @@ From Coq Require Import List NArith Lia Bool ZifyN ZifyBool.
 From Cfb.model Require Import Base Names DirEnt State Alloc Dir Mini Store.
 From Cfb.gen Require Import Consts.
 From Cfb.proofs Require Import ChainProofs ReuseProofs.
-From Cfb.proofs Require CodecProofs WalkProofs.
+From Cfb.proofs Require CodecProofs WalkProofs CoherenceProofs.
 Import ListNotations.
 Open Scope N_scope.
 
@@ -704,7 +704,8 @@ Theorem shrink_then_grow_zero : forall s id V ids m,
     resize id m s = (s1, Ok tt) /\
     resize id (lenN V) s1 = (s2, Ok tt) /\
     big_content s1 id (takeN m V) /\
-    big_content s2 id (takeN m V ++ repeatN 0 (lenN V - m)).
+    big_content s2 id (takeN m V ++ repeatN 0 (lenN V - m)) /\
+    stream_ids s2 id ids /\ free s2 = free s /\ StoreWf s2.
 Proof.
   intros s id V ids m HB Hsi Hwf Hm Hlt Htight.
   pose proof HB as (e & ids' & He & Ht & Hcut & Hc & Hg & Hle & HV).
@@ -716,10 +717,11 @@ Proof.
   pose proof (same_shape_slen _ _ Hsh1) as Hsl1.
   assert (Hl1 : lenN (takeN m V) = m) by (rewrite lenN_takeN; blia).
   destruct (resize_big_grow_zero_within_chain s1 id (takeN m V) ids (lenN V) HB1 Hsi1 Hwf1)
-    as (s2 & R2 & HB2 & _).
+    as (s2 & R2 & HB2 & Hsi2 & Hwf2 & Hsh2 & _).
   { blia. } { rewrite Hsl1. blia. } { rewrite Hsl1. blia. }
   rewrite Hl1 in HB2.
-  exists s1, s2. csplit; assumption.
+  destruct Hsh1 as (_ & _ & _ & _ & _ & F1 & _). destruct Hsh2 as (_ & _ & _ & _ & _ & F2 & _).
+  exists s1, s2. csplit; try assumption. congruence.
 Qed.
 
 (* ================================================================== *)
@@ -736,6 +738,19 @@ Proof.
   - constructor.
   - econstructor; [exact Hc | | apply IH; [exact Hlen|]].
     + unfold next_of in *. rewrite Hlen, (Hnth cur (or_introl eq_refl)). exact Hn.
+    + intros x Hx. apply Hnth. right. exact Hx.
+Qed.
+
+Lemma path_ext_le : forall fat fat' c l,
+  path fat c l -> lenN fat <= lenN fat' ->
+  (forall x, In x l -> nthN fat' x = nthN fat x) -> path fat' c l.
+Proof.
+  intros fat fat' c l Hp. induction Hp as [|cur nx l Hc Hn Hp IH]; intros Hlen Hnth.
+  - constructor.
+  - econstructor; [exact Hc | | apply IH; [exact Hlen|]].
+    + apply WalkProofs.next_of_Ok in Hn. apply WalkProofs.next_of_Ok.
+      rewrite (Hnth cur (or_introl eq_refl)). destruct Hn as [H1 H2]. split; [exact H1|].
+      destruct H2 as [H2|[H2 H3]]; [left; exact H2 | right; split; [exact H2 | lia]].
     + intros x Hx. apply Hnth. right. exact Hx.
 Qed.
 
@@ -1086,7 +1101,7 @@ Qed.
 Lemma other_stream_frame : forall s s' id' V' ids',
   big_content s id' V' -> stream_ids s id' ids' ->
   nthN (dirs s') id' = nthN (dirs s) id' ->
-  lenN (fat s') = lenN (fat s) ->
+  lenN (fat s) <= lenN (fat s') ->
   (forall x, In x ids' -> nthN (fat s') x = nthN (fat s) x) ->
   (forall x, In x ids' -> sector_bytes s' x = sector_bytes s x) ->
   AllocWf s' -> nsect s <= nsect s' -> slen s' = slen s ->
@@ -1099,7 +1114,7 @@ Proof.
   pose proof (WalkProofs.chain_ids_path _ _ _ Hch2) as Hp.
   assert (Hch' : chain_ids_of (fat s') (d_start e2) = Ok ids2).
   { apply WalkProofs.chain_ids_of_path; [|eapply path_nodup; exact Hp].
-    eapply path_ext; eassumption. }
+    eapply path_ext_le; eassumption. }
   assert (Hg' : good_chain s' ids2).
   { destruct Hg2 as (Hnd & HF & _). apply good_chain_of_wf; [exact Hwf | exact Hnd |].
     eapply Forall_impl; [|exact HF]. cbv beta. intros a [Ha _]. lia. }
@@ -1151,12 +1166,19 @@ Proof.
     unfold u32_max in *; rewrite two64_val; nia.
 Qed.
 
-(* resize of a large stream to any large length the chain can hold: sectors
-   beyond ceil(new_len / slen) are released to the free stack, the gained
-   range (if any) is zero-filled *)
-Theorem resize_big_no_alloc : forall s id V ids new_len,
+(* what a FAT-changing resize of stream [id] leaves alone *)
+Definition fat_frame (s s' : cstate) (id : N) (ids : list N) (new_len : N) : Prop :=
+  ver s' = ver s /\ difat s' = difat s /\ dir_start s' = dir_start s /\
+  lenN (fat s) <= lenN (fat s') /\
+  (forall x, ~ In x ids -> x < lenN (fat s) -> nthN (fat s') x = nthN (fat s) x) /\
+  (forall e, nthN (dirs s) id = Some e ->
+     dirs s' = updN (dirs s) id (set_start_len e (d_start e) new_len)).
+
+(* resize to a length that needs fewer sectors than the chain has *)
+Lemma resize_big_release : forall s id V ids new_len,
   big_content s id V -> stream_ids s id ids -> StoreWf s ->
-  MINI_STREAM_CUTOFF <= new_len -> new_len <= slen s * lenN ids ->
+  MINI_STREAM_CUTOFF <= new_len ->
+  (slen s + new_len - 1) / slen s < lenN ids ->
   exists s',
     resize id new_len s = (s', Ok tt) /\
     big_content s' id (takeN new_len V ++ repeatN 0 (new_len - lenN V)) /\
@@ -1164,22 +1186,15 @@ Theorem resize_big_no_alloc : forall s id V ids new_len,
     free s' = free s ++ dropN ((slen s + new_len - 1) / slen s) ids /\
     nsect s' = nsect s /\ AllocWf s' /\
     (forall id' V' ids', id' <> id -> big_content s id' V' -> stream_ids s id' ids' ->
-       disjoint ids ids' -> big_content s' id' V' /\ stream_ids s' id' ids').
+       disjoint ids ids' -> big_content s' id' V' /\ stream_ids s' id' ids') /\
+    fat_frame s s' id ids new_len.
 Proof.
-  intros s id V ids new_len HB Hsi Hwf Hnl Hfit.
+  intros s id V ids new_len HB Hsi Hwf Hnl Hlt.
   pose proof (slen_pos s) as Hsp.
   assert (Hnl0 : 0 < new_len) by (rewrite CUTOFF_val in Hnl; lia).
   destruct (ceil_props (slen s) new_len Hsp Hnl0) as [Hc1 Hc2].
   set (n' := (slen s + new_len - 1) / slen s) in *.
-  assert (Hn'le : n' <= lenN ids) by nia.
-  destruct (N.eq_dec n' (lenN ids)) as [Heq|Hneq].
-  { (* same number of sectors *)
-    destruct (resize_big_same_count s id V ids new_len HB Hsi Hwf Hnl Hfit ltac:(nia))
-      as (s' & R & HB' & Hsi' & Hwf' & Hsh' & Hoth).
-    exists s'. rewrite Heq, (takeN_all _ ids), (dropN_all _ ids), app_nil_r by lia.
-    destruct Hsh' as (A1 & _ & _ & _ & _ & A6 & _).
-    csplit; try assumption. apply (sw_alloc _ Hwf'). }
-  assert (Hlt : n' < lenN ids) by lia.
+  assert (Hfit : new_len <= slen s * lenN ids) by nia.
   pose proof Hsi as (e0 & He0 & _ & Hc0).
   pose proof HB as (e & ids' & He & Ht & Hcut & Hc & Hg & Hle & HV).
   rewrite He in He0. injection He0 as <-. rewrite Hc in Hc0. injection Hc0 as ->.
@@ -1240,7 +1255,7 @@ Proof.
   { rewrite Hsl2, Hsl1, Hlk. exact Hc1. }
   pose proof Hsh' as (Zn & Zv & Zi & Zl & Zfat & Zfree & Zdifat & Zds & _).
   pose proof (AllocWf_shape _ _ W2 Hsh') as W'.
-  exists s'. split; [|split; [|split; [exact Hsi'|split; [|split; [|split; [exact W'|]]]]]].
+  exists s'. split; [|split; [|split; [exact Hsi'|split; [|split; [|split; [exact W'|split]]]]]].
   - unfold resize.
     rewrite (bind_exec _ _ _ _ _ (stream_entry_exec s id e He Ht)).
     cbv beta iota zeta.
@@ -1274,7 +1289,7 @@ Proof.
     pose proof (sw_dir_disj s Hwf id' ids2 dids Hbig2 Hd) as Hdisj2.
     apply (other_stream_frame s s' id' V' ids2 HB2 Hsi2).
     + rewrite Hdirs', nthN_updN_other by lia. rewrite Hd2, Mdirs. reflexivity.
-    + rewrite Zfat, Sfat. exact Mfl.
+    + rewrite Zfat, Sfat, Mfl. apply N.le_refl.
     + intros x Hx. rewrite Zfat, Sfat. apply T1. intro Hin. exact (Hdj x Hin Hx).
     + intros x Hx. rewrite Hfr' by (apply Hdisj2; exact Hx).
       rewrite Hfr2 by (intro Hin; exact (Hdj x Hin Hx)).
@@ -1282,6 +1297,48 @@ Proof.
     + exact W'.
     + rewrite Zn, Sn, Mn. lia.
     + rewrite (same_shape_slen _ _ Hsh'), Hsl2. exact Hsl1.
+  - unfold fat_frame. csplit.
+    + congruence.
+    + congruence.
+    + congruence.
+    + rewrite Zfat, Sfat, Mfl. apply N.le_refl.
+    + intros x Hx _. rewrite Zfat, Sfat. apply T1. exact Hx.
+    + intros e1 He1. rewrite He in He1. injection He1 as <-.
+      rewrite Hdirs', Hd2, Mdirs. reflexivity.
+Qed.
+
+
+(* resize of a large stream to any large length the chain can hold: sectors
+   beyond ceil(new_len / slen) are released to the free stack, the gained
+   range (if any) is zero-filled *)
+Theorem resize_big_no_alloc : forall s id V ids new_len,
+  big_content s id V -> stream_ids s id ids -> StoreWf s ->
+  MINI_STREAM_CUTOFF <= new_len -> new_len <= slen s * lenN ids ->
+  exists s',
+    resize id new_len s = (s', Ok tt) /\
+    big_content s' id (takeN new_len V ++ repeatN 0 (new_len - lenN V)) /\
+    stream_ids s' id (takeN ((slen s + new_len - 1) / slen s) ids) /\
+    free s' = free s ++ dropN ((slen s + new_len - 1) / slen s) ids /\
+    nsect s' = nsect s /\ AllocWf s' /\
+    (forall id' V' ids', id' <> id -> big_content s id' V' -> stream_ids s id' ids' ->
+       disjoint ids ids' -> big_content s' id' V' /\ stream_ids s' id' ids').
+Proof.
+  intros s id V ids new_len HB Hsi Hwf Hnl Hfit.
+  pose proof (slen_pos s) as Hsp.
+  assert (Hnl0 : 0 < new_len) by (rewrite CUTOFF_val in Hnl; lia).
+  destruct (ceil_props (slen s) new_len Hsp Hnl0) as [Hc1 Hc2].
+  set (n' := (slen s + new_len - 1) / slen s) in *.
+  assert (Hn'le : n' <= lenN ids) by nia.
+  destruct (N.eq_dec n' (lenN ids)) as [Heq|Hneq].
+  { (* same number of sectors *)
+    destruct (resize_big_same_count s id V ids new_len HB Hsi Hwf Hnl Hfit ltac:(nia))
+      as (s' & R & HB' & Hsi' & Hwf' & Hsh' & Hoth).
+    exists s'. rewrite Heq, (takeN_all _ ids), (dropN_all _ ids), app_nil_r by lia.
+    destruct Hsh' as (A1 & _ & _ & _ & _ & A6 & _).
+    csplit; try assumption. apply (sw_alloc _ Hwf'). }
+  destruct (resize_big_release s id V ids new_len HB Hsi Hwf Hnl ltac:(fold n'; lia))
+    as (s' & H1 & H2 & H3 & H4 & H5 & H6 & H7 & _).
+  exists s'. fold n' in H3, H4. csplit; assumption.
 Qed.
 
 (* S4, general: truncation of a large stream to a large length *)
@@ -1696,7 +1753,7 @@ Proof.
       exact (D1 id' ids2 Hbig2 Hx). }
     apply (other_stream_frame s s' id' V' ids2 HB2 Hsi2).
     + rewrite Hdirs', nthN_updN_other by lia. rewrite Hd2, Mdirs. reflexivity.
-    + rewrite Zfat, Sfat. exact Mfl.
+    + rewrite Zfat, Sfat, Mfl. apply N.le_refl.
     + intros x Hx. rewrite Zfat, Sfat.
       apply T1; [intro Hin; exact (Hdj x Hin Hx) | apply Hids2_nw; exact Hx].
     + intros x Hx. rewrite Hfr' by (apply Hdisj2; exact Hx).
@@ -1709,6 +1766,631 @@ Proof.
     + exact W'.
     + rewrite Zn, Sn, Mn. lia.
     + rewrite (same_shape_slen _ _ Hsh'), Hsl2. exact Hsl1.
+Qed.
+
+(* ================================================================== *)
+(* S6, second case: the free stack is empty, the file grows             *)
+(* ================================================================== *)
+
+Module Co := CoherenceProofs.
+
+(* one step of Chain growth when the free stack is empty and the FAT sector
+   in use still has a free cell: one FAT cell and one sector are appended *)
+Lemma extend_chain_append : forall s start ids last,
+  AllocWf s -> free s = [] -> lenN (fat s) = nsect s ->
+  nsect s <= MAX_REGULAR_SECTOR ->
+  nsect s mod fat_per_sector s <> 0 ->
+  path (fat s) start ids -> lastN ids = Some last ->
+  exists s',
+    extend_chain last IZero s = (s', Ok (nsect s)) /\
+    AllocWf s' /\ free s' = [] /\ lenN (fat s') = nsect s' /\ nsect s' = nsect s + 1 /\
+    ver s' = ver s /\ difat s' = difat s /\ dirs s' = dirs s /\ dir_start s' = dir_start s /\
+    path (fat s') start (ids ++ [nsect s]) /\
+    (forall x, ~ In x ids -> x < nsect s -> nthN (fat s') x = nthN (fat s) x) /\
+    (forall x, x < nsect s -> ~ In x (difat s) -> sector_bytes s' x = sector_bytes s x) /\
+    sector_bytes s' (nsect s) = repeatN 0 (slen s).
+Proof.
+  intros s start ids last Hwf Hfree Hlen Hns Hmod Hp Hlast.
+  pose proof (fps_pos s) as Hfp.
+  pose proof (lastN_Some_snoc _ _ _ Hlast) as Eids.
+  set (l := pop_last ids) in *.
+  pose proof Hp as Hp0. rewrite Eids in Hp0.
+  pose proof (path_last_EOC _ _ _ _ Hp0) as Hnx.
+  pose proof (WalkProofs.next_of_lt _ _ _ Hnx) as Hlast_lt.
+  pose proof (path_nodup _ _ _ Hp0) as Hnodup.
+  assert (Hlast_l : ~ In last l).
+  { apply NoDup_remove_2 in Hnodup. rewrite app_nil_r in Hnodup. exact Hnodup. }
+  assert (Hlast_ne : last <> END_OF_CHAIN).
+  { apply path_mid in Hp0. inversion Hp0 as [|cur nx l' Hc Hn' Hp']. exact Hc. }
+  assert (Hids_lt : forall x, In x ids -> x < nsect s).
+  { intros x Hx. pose proof (WalkProofs.path_lt _ _ _ Hp) as HF. rewrite Forall_forall in HF.
+    rewrite <- Hlen. apply HF. exact Hx. }
+  assert (Hpos : 0 < nsect s) by (rewrite <- Hlen; lia).
+  (* the FAT sector backing the last cell also backs the next one *)
+  destruct (wf_backed s Hwf (lenN (fat s) - 1) ltac:(lia)) as (f & Hd & Hf).
+  assert (Ediv : (lenN (fat s) - 1) / fat_per_sector s = lenN (fat s) / fat_per_sector s).
+  { rewrite Hlen. destruct (fps_cases s) as [[_ E]|[_ E]]; rewrite E in *; lia. }
+  rewrite Ediv in Hd.
+  (* set_fat (lenN fat) END_OF_CHAIN *)
+  pose proof (set_fat_exec s (lenN (fat s)) END_OF_CHAIN f ltac:(lia) Hd Hf (wf_full s Hwf f Hf)) as E1.
+  set (sa := set_fat_state s (lenN (fat s)) END_OF_CHAIN f) in *.
+  pose proof (set_fat_state_fields s (lenN (fat s)) END_OF_CHAIN f)
+    as (Av & An & Adi & Ad & Afat & Afr & Adirs & _ & _ & Asl & Afps & Aimg).
+  fold sa in Av, An, Adi, Ad, Afat, Afr, Adirs, Asl, Afps, Aimg.
+  unfold fat_set in Afat. rewrite N.eqb_refl in Afat.
+  assert (Afull : full sa) by (apply full_set_fat_state; [exact (wf_full s Hwf) | exact Hf]).
+  assert (Aimg' : lenN (img sa) = nsect sa + 1) by (rewrite Aimg, An; exact (wf_img s Hwf)).
+  (* init_sector (nsect) IZero: a new sector *)
+  pose proof (Co.init_sector_append_exec sa IZero Aimg' Afull ltac:(rewrite An; exact Hpos)) as E2.
+  set (sb := Co.app_sector sa (init_bytes (ver sa) IZero)) in *.
+  assert (Bn : nsect sb = nsect s + 1) by (cbn [sb Co.app_sector nsect w_img w_nsect]; rewrite An; reflexivity).
+  assert (Bfat : fat sb = fat s ++ [END_OF_CHAIN]) by exact Afat.
+  assert (Bfull : full sb).
+  { apply Co.full_app_sector; [exact Aimg' | exact Afull |]. rewrite lenN_init_bytes. reflexivity. }
+  assert (Bimg : lenN (img sb) = nsect sb + 1).
+  { cbn [sb Co.app_sector img nsect w_img w_nsect]. rewrite lenN_app, Aimg'. cbn [lenN]. lia. }
+  assert (Bd : difat sb = difat s) by exact Ad.
+  assert (Bfps : fat_per_sector sb = fat_per_sector s) by exact Afps.
+  (* set_fat last (nsect s) *)
+  assert (Hlast_b : last < lenN (fat sb)) by (rewrite Bfat, lenN_app; cbn [lenN]; lia).
+  destruct (wf_backed s Hwf last Hlast_lt) as (f' & Hd' & Hf').
+  assert (Hd'b : nthN (difat sb) (last / fat_per_sector sb) = Some f') by (rewrite Bd, Bfps; exact Hd').
+  assert (Hf'b : f' < nsect sb) by (rewrite Bn; lia).
+  pose proof (set_fat_exec sb last (nsect s) f' ltac:(lia) Hd'b Hf'b (Bfull f' Hf'b)) as E3.
+  set (s' := set_fat_state sb last (nsect s) f') in *.
+  pose proof (set_fat_state_fields sb last (nsect s) f')
+    as (Ev & En & Edi & Ed & Efat & Efr & Edirs & _ & _ & Esl & Efps & Eimg).
+  fold s' in Ev, En, Edi, Ed, Efat, Efr, Edirs, Esl, Efps, Eimg.
+  rewrite fat_set_lt in Efat by exact Hlast_b.
+  assert (Hf_in : In f (difat s)) by (eapply nthN_In; exact Hd).
+  assert (Hf'_in : In f' (difat s)) by (eapply nthN_In; exact Hd').
+  assert (Hnew_ids : ~ In (nsect s) ids) by (intro Hin; apply Hids_lt in Hin; lia).
+  exists s'. split.
+  { unfold extend_chain.
+    destruct (last =? END_OF_CHAIN) eqn:E; [apply N.eqb_eq in E; contradiction|].
+    rewrite bind_get. rewrite (find_last_at_end _ _ Hnx). rewrite bind_lift_ok.
+    assert (Ealloc : allocate_sector IZero s = (sb, Ok (nsect s))).
+    { rewrite (Co.allocate_sector_grow_unfold IZero s Hfree).
+      rewrite Hlen. destruct (nsect s mod fat_per_sector s =? 0) eqn:Em; [lia|].
+      rewrite bind_ret. unfold Co.alloc_tail. rewrite bind_get.
+      rewrite (bind_exec _ _ _ _ _ E1). rewrite Hlen, <- An.
+      rewrite (bind_exec _ _ _ _ _ E2). rewrite An. reflexivity. }
+    rewrite (bind_exec _ _ _ _ _ Ealloc). rewrite (bind_exec _ _ _ _ _ E3). reflexivity. }
+  split.
+  { apply set_fat_state_wf; [|exact Hlast_b | exact Hf'b].
+    constructor.
+    - exact Bimg.
+    - exact Bfull.
+    - intros x Hx. change (free sb) with (free sa) in Hx. rewrite Afr, Hfree in Hx. destruct Hx.
+    - intros j Hj. rewrite Bfat, lenN_app in Hj. cbn [lenN] in Hj. rewrite Bd, Bfps, Bn.
+      destruct (N.eq_dec j (lenN (fat s))) as [->|Hne].
+      + exists f. split; [exact Hd | lia].
+      + destruct (wf_backed s Hwf j ltac:(lia)) as (g & G1 & G2). exists g. split; [exact G1 | lia]. }
+  split; [rewrite Efr; change (free sb) with (free sa); rewrite Afr; exact Hfree|].
+  split; [rewrite Efat, lenN_updN, Bfat, lenN_app, En, Bn, Hlen; reflexivity|].
+  split; [rewrite En; exact Bn|].
+  split; [rewrite Ev; exact Av|].
+  split; [rewrite Ed; exact Bd|].
+  split; [rewrite Edirs; exact Adirs|].
+  split; [reflexivity|].
+  split.
+  { rewrite Efat, Bfat. rewrite Eids, <- app_assoc. cbn [app].
+    apply path_extend.
+    - apply (path_ext_le (fat s)); [exact Hp0 | rewrite lenN_app; lia |].
+      intros x Hx. apply nthN_app_l. rewrite <- Eids in Hx. rewrite Hlen. apply Hids_lt. exact Hx.
+    - exact Hlast_l.
+    - intro E. apply Hnew_ids. rewrite Eids. apply in_or_app. right. left. exact E.
+    - intro Hin. apply Hnew_ids. rewrite Eids. apply in_or_app. left. exact Hin.
+    - rewrite nthN_app_r by lia. rewrite Hlen, N.sub_diag. reflexivity.
+    - rewrite EOC_val. rewrite MAXREG_val in Hns. lia.
+    - exact Hns.
+    - rewrite lenN_app. cbn [lenN]. lia. }
+  split.
+  { intros x Hx Hxn. rewrite Efat, Bfat.
+    rewrite nthN_updN_other.
+    - apply nthN_app_l. lia.
+    - intro E. apply Hx. rewrite Eids. apply in_or_app. right. left. exact E. }
+  split.
+  { intros x Hxn Hxd. unfold s'.
+    rewrite sector_bytes_set_fat_state by (intro E; subst x; contradiction).
+    unfold sb. rewrite Co.sector_bytes_app_old by (try exact Aimg'; rewrite An; exact Hxn).
+    unfold sa. apply sector_bytes_set_fat_state. intro E. subst x. contradiction. }
+  { unfold s'. rewrite sector_bytes_set_fat_state by (rewrite <- Hlen in *; lia).
+    unfold sb. rewrite <- An. rewrite Co.sector_bytes_app_new by exact Aimg'. reflexivity. }
+Qed.
+
+Fixpoint seqN (a : N) (k : nat) : list N :=
+  match k with O => [] | S k' => a :: seqN (a + 1) k' end.
+
+Lemma In_seqN : forall k a x, In x (seqN a k) -> a <= x < a + N.of_nat k.
+Proof.
+  induction k as [|k IH]; intros a x H; [destruct H|]. cbn [seqN] in H.
+  destruct H as [<-|H]; [lia|]. apply IH in H. lia.
+Qed.
+
+Lemma lenN_seqN : forall k a, lenN (seqN a k) = N.of_nat k.
+Proof. induction k as [|k IH]; intro a; cbn [seqN lenN]; [reflexivity|]. rewrite IH. lia. Qed.
+
+Lemma chain_grow_append : forall k s start ids o,
+  AllocWf s -> free s = [] -> lenN (fat s) = nsect s -> ids <> [] ->
+  (forall f, In f (difat s) -> f < nsect s) ->
+  nsect s + N.of_nat k <= MAX_REGULAR_SECTOR + 1 ->
+  (forall j, j < N.of_nat k -> (nsect s + j) mod fat_per_sector s <> 0) ->
+  path (fat s) start ids ->
+  exists s',
+    chain_grow k (mkChain IZero ids o) s
+      = (s', Ok (mkChain IZero (ids ++ seqN (nsect s) k) o)) /\
+    AllocWf s' /\ free s' = [] /\ lenN (fat s') = nsect s' /\
+    nsect s' = nsect s + N.of_nat k /\
+    ver s' = ver s /\ difat s' = difat s /\ dirs s' = dirs s /\ dir_start s' = dir_start s /\
+    path (fat s') start (ids ++ seqN (nsect s) k) /\
+    (forall x, ~ In x ids -> x < nsect s -> nthN (fat s') x = nthN (fat s) x) /\
+    (forall x, x < nsect s -> ~ In x (difat s) -> sector_bytes s' x = sector_bytes s x) /\
+    (forall x, In x (seqN (nsect s) k) -> sector_bytes s' x = repeatN 0 (slen s)).
+Proof.
+  induction k as [|k IH]; intros s start ids o Hwf Hfree Hlen Hne Hdlt Hns Hmod Hp.
+  - exists s. cbn [chain_grow seqN]. rewrite app_nil_r, N.add_0_r.
+    csplit; try reflexivity; try assumption. intros x [].
+  - destruct (exists_last Hne) as (l & last & El).
+    assert (Hlast : lastN ids = Some last) by (rewrite El; apply lastN_snoc).
+    destruct (extend_chain_append s start ids last Hwf Hfree Hlen ltac:(lia)
+                ltac:(specialize (Hmod 0 ltac:(lia)); rewrite N.add_0_r in Hmod; exact Hmod)
+                Hp Hlast)
+      as (s1 & E1 & W1 & F1 & L1 & N1 & V1 & D1 & R1 & S1 & P1 & T1 & B1 & Z1).
+    assert (Hsl1 : slen s1 = slen s) by (unfold slen; rewrite V1; reflexivity).
+    assert (Hfps1 : fat_per_sector s1 = fat_per_sector s) by (unfold fat_per_sector; rewrite Hsl1; reflexivity).
+    destruct (IH s1 start (ids ++ [nsect s]) o W1 F1 L1)
+      as (s' & E' & W' & F' & L' & N' & V' & D' & R' & S' & P' & T' & B' & Z').
+    + intro E. apply app_eq_nil in E. destruct E as [_ E]. discriminate.
+    + intros f Hf. rewrite D1 in Hf. rewrite N1. apply Hdlt in Hf. lia.
+    + rewrite N1. lia.
+    + intros j Hj. rewrite N1, Hfps1. replace (nsect s + 1 + j) with (nsect s + (j + 1)) by lia.
+      apply Hmod. lia.
+    + exact P1.
+    + exists s'. cbn [chain_grow seqN]. cbn [c_ids c_init c_off].
+      rewrite Hlast. rewrite (bind_exec _ _ _ _ _ E1).
+      rewrite N1 in E', P', Z'.
+      rewrite <- app_assoc in E', P'. cbn [app] in E', P'.
+      split; [exact E'|]. split; [exact W'|]. split; [exact F'|]. split; [exact L'|].
+      split; [rewrite N', N1; lia|].
+      split; [congruence|]. split; [congruence|]. split; [congruence|]. split; [congruence|].
+      split; [exact P'|].
+      split; [|split].
+      * intros x Hx1 Hx2. rewrite T'.
+        -- apply T1; assumption.
+        -- intro Hin. apply in_app_or in Hin. destruct Hin as [Hin|[<-|[]]]; [contradiction|lia].
+        -- rewrite N1. lia.
+      * intros x Hx1 Hx2. rewrite B'.
+        -- apply B1; assumption.
+        -- rewrite N1. lia.
+        -- rewrite D1. exact Hx2.
+      * intros x [<-|Hx].
+        -- rewrite B'; [exact Z1 | rewrite N1; lia |].
+           rewrite D1. intro Hin. apply Hdlt in Hin. lia.
+        -- rewrite Z' by exact Hx. rewrite Hsl1. reflexivity.
+Qed.
+
+(* S6, append case: the free stack is empty, the FAT has one cell per sector
+   (lenN fat = nsect, as FatInv says), every FAT sector exists, and none of the
+   k = ceil(new_len/slen) - lenN ids cells to append starts a new FAT sector
+   (the cells nsect .. nsect+k-1 are not multiples of fat_per_sector).  Then the
+   file grows by exactly k zero sectors nsect .. nsect+k-1, linked after the
+   chain.  Not covered: growth that also appends a FAT (or DIFAT) sector. *)
+Theorem resize_big_grow_zero_append : forall s id V ids new_len k,
+  big_content s id V -> stream_ids s id ids -> StoreWf s ->
+  free s = [] -> lenN (fat s) = nsect s ->
+  (forall f, In f (difat s) -> f < nsect s) ->
+  slen s * lenN ids < new_len ->
+  lenN ids + N.of_nat k = (slen s + new_len - 1) / slen s ->
+  nsect s + N.of_nat k <= MAX_REGULAR_SECTOR + 1 ->
+  (forall j, j < N.of_nat k -> (nsect s + j) mod fat_per_sector s <> 0) ->
+  exists s',
+    resize id new_len s = (s', Ok tt) /\
+    big_content s' id (V ++ repeatN 0 (new_len - lenN V)) /\
+    stream_ids s' id (ids ++ seqN (nsect s) k) /\
+    free s' = [] /\ nsect s' = nsect s + N.of_nat k /\ lenN (fat s') = nsect s' /\ AllocWf s' /\
+    (forall id' V' ids', id' <> id -> big_content s id' V' -> stream_ids s id' ids' ->
+       disjoint ids ids' -> big_content s' id' V' /\ stream_ids s' id' ids').
+Proof.
+  intros s id V ids new_len k HB Hsi Hwf Hfree Hlen Hdlt Hgt Hcount Hbound Hmod.
+  pose proof (slen_pos s) as Hsp.
+  pose proof Hsi as (e0 & He0 & _ & Hc0).
+  pose proof HB as (e & ids' & He & Ht & Hcut & Hc & Hg & Hle & HV).
+  rewrite He in He0. injection He0 as <-. rewrite Hc in Hc0. injection Hc0 as ->.
+  pose proof (big_content_len _ _ _ _ HB He) as HlV.
+  pose proof (good_chain_len _ _ Hg) as HCL.
+  assert (Hnl : MINI_STREAM_CUTOFF <= new_len) by lia.
+  assert (Hnl0 : 0 < new_len) by (rewrite CUTOFF_val in Hnl; lia).
+  destruct (ceil_props (slen s) new_len Hsp Hnl0) as [Hc1 Hc2].
+  rewrite <- Hcount in Hc1, Hc2.
+  pose proof (ids_nonempty s ids _ Hcut Hle) as Hne.
+  destruct (chain_ids_head _ _ _ Hc Hne) as (Hst & t & Eids).
+  pose proof (WalkProofs.chain_ids_path _ _ _ Hc) as Hp.
+  pose proof (path_nodup _ _ _ Hp) as Hnd.
+  assert (HF : Forall (fun x => x < nsect s) ids).
+  { destruct Hg as (_ & HF & _). eapply Forall_impl; [|exact HF]. cbv beta. tauto. }
+  assert (Hbig : big_ids s id ids) by (exists e; csplit; assumption).
+  destruct (sw_dir s Hwf) as (dids & Hd & Hgd & Hroom).
+  pose proof (sw_dir_disj s Hwf id ids dids Hbig Hd) as Hdisj.
+  pose proof (sw_alloc s Hwf) as Wa.
+  set (nw := seqN (nsect s) k) in *.
+  assert (Hnw_ge : forall x, In x nw -> nsect s <= x < nsect s + N.of_nat k).
+  { intros x Hx. apply In_seqN. exact Hx. }
+  assert (Hlnw : lenN nw = N.of_nat k) by apply lenN_seqN.
+  assert (Hov : slen s + new_len < two64).
+  { pose proof (good_chain_count _ _ Hg) as B1. rewrite MAXREG_val in Hbound.
+    destruct (slen_cases s) as [Es|Es]; rewrite Es in *; rewrite two64_val; nia. }
+  (* Chain::set_len *)
+  destruct (chain_grow_append k s (d_start e) ids 0 Wa Hfree Hlen Hne Hdlt Hbound Hmod Hp)
+    as (s1 & Hgrow & W1 & F1 & L1 & N1 & V1 & D1 & R1 & S1 & P1 & T1 & B1 & Z1).
+  fold nw in Hgrow, P1, Z1.
+  assert (Hsl1 : slen s1 = slen s) by (unfold slen; rewrite V1; reflexivity).
+  assert (HFall : Forall (fun x => x < nsect s1) (ids ++ nw)).
+  { apply Forall_app. split.
+    - eapply Forall_impl; [|exact HF]. cbv beta. intros a Ha. rewrite N1. lia.
+    - rewrite Forall_forall. intros x Hx. apply Hnw_ge in Hx. rewrite N1. lia. }
+  assert (Hg1 : good_chain s1 (ids ++ nw)).
+  { apply good_chain_of_wf; [exact W1 | eapply path_nodup; exact P1 | exact HFall]. }
+  assert (Hids_lt : forall x, In x ids -> x < nsect s) by (rewrite Forall_forall in HF; exact HF).
+  assert (Hids_difat : forall x, In x ids -> ~ In x (difat s)).
+  { intros x Hx Hin. destruct (sw_difat_disj s Hwf x Hin) as [D _]. exact (D id ids Hbig Hx). }
+  assert (Hcont1 : chain_content s1 (ids ++ nw)
+                   = chain_content s ids ++ repeatN 0 (slen s * lenN nw)).
+  { rewrite chain_content_app. f_equal.
+    - apply chain_content_ext. intros x Hx. apply B1; [apply Hids_lt | apply Hids_difat]; exact Hx.
+    - apply zeros_content. exact Z1. }
+  (* zero fill of the tail of the old last sector *)
+  destruct (zero_fill_chain_spec s1 (mkChain IZero (ids ++ nw) 0) (d_len e) (slen s * lenN ids) Hg1)
+    as (s2 & c2 & Hz & Hids2 & Hcont2 & Hg2 & Hsh2 & Hd2 & Hfr2).
+  { unfold chain_len. cbn [c_ids]. rewrite Hsl1, lenN_app. nia. }
+  cbn [c_ids] in *.
+  pose proof (same_shape_slen _ _ Hsh2) as Hsl2.
+  pose proof Hsh2 as (Sn & Sv & Si & Sl & Sfat & Sfree & Sdifat & Sds & _).
+  pose proof (AllocWf_shape _ _ W1 Hsh2) as W2.
+  assert (Hch2 : chain_ids_of (fat s2) (d_start e) = Ok (ids ++ nw)).
+  { rewrite Sfat. apply WalkProofs.chain_ids_of_path; [exact P1 | eapply path_nodup; exact P1]. }
+  assert (Hdids_lt : forall x, In x dids -> x < nsect s).
+  { destruct Hgd as (_ & HFd & _). rewrite Forall_forall in HFd. intros x Hx. apply HFd. exact Hx. }
+  assert (Hdids_nw : forall x, In x dids -> ~ In x nw).
+  { intros x Hx Hin. apply Hdids_lt in Hx. apply Hnw_ge in Hin. lia. }
+  assert (Hfl1 : lenN (fat s) <= lenN (fat s1)) by (rewrite L1, N1, Hlen; lia).
+  assert (Hdir2 : dir_ids s2 dids).
+  { unfold dir_ids in *. rewrite Sfat, Sds, S1.
+    pose proof (WalkProofs.chain_ids_path _ _ _ Hd) as Hpd.
+    apply WalkProofs.chain_ids_of_path; [|eapply path_nodup; exact Hpd].
+    apply (path_ext_le (fat s)); [exact Hpd | exact Hfl1 |].
+    intros x Hx. apply T1; [intro Hin; exact (Hdisj x Hin Hx) | apply Hdids_lt; exact Hx]. }
+  assert (Hgd2 : good_chain s2 dids).
+  { destruct Hgd as (Hndd & HFd & _). apply good_chain_of_wf; [exact W2 | exact Hndd |].
+    eapply Forall_impl; [|exact HFd]. cbv beta. intros a [Ha _]. rewrite Sn, N1. lia. }
+  destruct (finish_gen s2 id e (ids ++ nw) dids new_len)
+    as (s' & Hu & HB' & Hsi' & Hsh' & Hdirs' & Hfr'); try assumption.
+  { rewrite Hd2, R1. exact He. }
+  { eapply sw_names; eassumption. }
+  { rewrite Hd2, R1, Hsl2, Hsl1. exact Hroom. }
+  { intros x Hx Hin. apply in_app_or in Hx. destruct Hx as [Hx|Hx].
+    - exact (Hdisj x Hx Hin).
+    - exact (Hdids_nw x Hin Hx). }
+  { rewrite Hsl2, Hsl1, lenN_app, Hlnw. exact Hc1. }
+  pose proof Hsh' as (Zn & Zv & Zi & Zl & Zfat & Zfree & Zdifat & Zds & _).
+  pose proof (AllocWf_shape _ _ W2 Hsh') as W'.
+  exists s'.
+  split; [|split; [|split; [exact Hsi'|split; [|split; [|split; [|split; [exact W'|]]]]]]].
+  - unfold resize.
+    rewrite (bind_exec _ _ _ _ _ (stream_entry_exec s id e He Ht)).
+    cbv beta iota zeta.
+    match goal with |- bind ?m _ s = _ => assert (E : m s = (s2, Ok (d_start e))) end.
+    { destruct (d_start e =? END_OF_CHAIN) eqn:E2; [apply N.eqb_eq in E2; contradiction|].
+      destruct (d_len e <? MINI_STREAM_CUTOFF) eqn:E3; [lia|].
+      destruct (new_len =? 0) eqn:E4; [lia|].
+      destruct (new_len <? MINI_STREAM_CUTOFF) eqn:E5; [lia|].
+      rewrite (bind_exec _ _ _ _ _ (chain_new_exec s (d_start e) IZero ids Hc)).
+      rewrite bind_get.
+      assert (Hset : chain_set_len (mkChain IZero ids 0) new_len s
+                     = (s1, Ok (mkChain IZero (ids ++ nw) 0))).
+      { rewrite chain_set_len_grow by (cbn [c_ids]; lia). cbn [c_ids].
+        rewrite <- Hcount.
+        replace (N.to_nat (lenN ids + N.of_nat k - lenN ids)) with k by lia.
+        exact Hgrow. }
+      rewrite (bind_exec _ _ _ _ _ Hset).
+      unfold chain_len at 1. cbn [c_ids].
+      replace (N.min new_len (slen s * lenN ids)) with (slen s * lenN ids) by lia.
+      rewrite (bind_exec _ _ _ _ _ Hz).
+      unfold chain_start. rewrite Hids2, Eids. cbn [app]. rewrite N.eqb_refl. reflexivity. }
+    rewrite (bind_exec _ _ _ _ _ E). exact Hu.
+  - rewrite Hcont2, Hcont1 in HB'. rewrite <- HCL in HB'.
+    rewrite (grow_content _ V _ _ HV) in HB' by blia.
+    rewrite takeN_app_ge in HB' by blia.
+    rewrite takeN_repeatN in HB' by (rewrite HCL, Hlnw; blia).
+    exact HB'.
+  - rewrite Zfree, Sfree. exact F1.
+  - rewrite Zn, Sn. exact N1.
+  - rewrite Zfat, Sfat, Zn, Sn. exact L1.
+  - intros id' V' ids2 Hneq HB2 Hsi2 Hdj.
+    assert (Hbig2 : big_ids s id' ids2).
+    { destruct HB2 as (e2 & l2 & A1 & A2 & A3 & A4 & _). destruct Hsi2 as (e3 & A5 & _ & A6).
+      rewrite A1 in A5. injection A5 as <-. rewrite A4 in A6. injection A6 as <-.
+      exists e2. csplit; assumption. }
+    pose proof (sw_dir_disj s Hwf id' ids2 dids Hbig2 Hd) as Hdisj2.
+    assert (Hids2_lt : forall x, In x ids2 -> x < nsect s).
+    { destruct HB2 as (e2 & l2 & A1 & _ & _ & A4 & (_ & A5 & _) & _).
+      destruct Hsi2 as (e3 & A6 & _ & A7). rewrite A1 in A6. injection A6 as <-.
+      rewrite A4 in A7. injection A7 as <-. rewrite Forall_forall in A5.
+      intros x Hx. apply A5. exact Hx. }
+    assert (Hids2_nw : forall x, In x ids2 -> ~ In x nw).
+    { intros x Hx Hin. apply Hids2_lt in Hx. apply Hnw_ge in Hin. lia. }
+    apply (other_stream_frame s s' id' V' ids2 HB2 Hsi2).
+    + rewrite Hdirs', nthN_updN_other by lia. rewrite Hd2, R1. reflexivity.
+    + rewrite Zfat, Sfat. exact Hfl1.
+    + intros x Hx. rewrite Zfat, Sfat.
+      apply T1; [intro Hin; exact (Hdj x Hin Hx) | apply Hids2_lt; exact Hx].
+    + intros x Hx. rewrite Hfr' by (apply Hdisj2; exact Hx).
+      rewrite Hfr2.
+      * apply B1; [apply Hids2_lt; exact Hx|].
+        intro Hin. destruct (sw_difat_disj s Hwf x Hin) as [D _]. exact (D id' ids2 Hbig2 Hx).
+      * intro Hin. apply in_app_or in Hin. destruct Hin as [Hin|Hin].
+        -- exact (Hdj x Hin Hx).
+        -- exact (Hids2_nw x Hx Hin).
+    + exact W'.
+    + rewrite Zn, Sn, N1. lia.
+    + rewrite (same_shape_slen _ _ Hsh'), Hsl2. exact Hsl1.
+Qed.
+
+(* the same from the allocator invariant of CoherenceProofs *)
+Corollary resize_big_grow_zero_append_FatInv : forall s id V ids new_len k,
+  big_content s id V -> stream_ids s id ids -> StoreWf s ->
+  free s = [] -> Co.FatInv s ->
+  slen s * lenN ids < new_len ->
+  lenN ids + N.of_nat k = (slen s + new_len - 1) / slen s ->
+  nsect s + N.of_nat k <= MAX_REGULAR_SECTOR + 1 ->
+  (forall j, j < N.of_nat k -> (nsect s + j) mod fat_per_sector s <> 0) ->
+  exists s',
+    resize id new_len s = (s', Ok tt) /\
+    big_content s' id (V ++ repeatN 0 (new_len - lenN V)) /\
+    stream_ids s' id (ids ++ seqN (nsect s) k) /\
+    free s' = [] /\ nsect s' = nsect s + N.of_nat k.
+Proof.
+  intros s id V ids new_len k HB Hsi Hwf Hfree Hinv Hgt Hcount Hbound Hmod.
+  destruct (resize_big_grow_zero_append s id V ids new_len k HB Hsi Hwf Hfree
+              (Co.fi_len s Hinv) (Co.co_lt s (Co.fi_core s Hinv)) Hgt Hcount Hbound Hmod)
+    as (s' & H1 & H2 & H3 & H4 & H5 & _).
+  exists s'. csplit; assumption.
+Qed.
+
+(* ================================================================== *)
+(* StoreWf after sectors were released; S7 for any cut point            *)
+(* ================================================================== *)
+
+(* every large stream has a chain, and large streams do not share sectors *)
+Definition streams_ok (s : cstate) : Prop :=
+  (forall id e, nthN (dirs s) id = Some e -> d_type e = TStream ->
+     MINI_STREAM_CUTOFF <= d_len e -> exists ids, chain_ids_of (fat s) (d_start e) = Ok ids) /\
+  (forall id id' ids ids', id <> id' -> big_ids s id ids -> big_ids s id' ids' -> disjoint ids ids').
+
+Lemma big_ids_fun : forall s id l1 l2, big_ids s id l1 -> big_ids s id l2 -> l1 = l2.
+Proof.
+  intros s id l1 l2 (e1 & A1 & _ & _ & A2) (e2 & B1 & _ & _ & B2).
+  rewrite A1 in B1. injection B1 as <-. rewrite A2 in B2. injection B2 as <-. reflexivity.
+Qed.
+
+Lemma chain_frame : forall s s' id ids new_len start l,
+  fat_frame s s' id ids new_len ->
+  chain_ids_of (fat s) start = Ok l -> (forall x, In x l -> ~ In x ids) ->
+  chain_ids_of (fat s') start = Ok l.
+Proof.
+  intros s s' id ids new_len start l (_ & _ & _ & Hle & Hfr & _) Hc Hd.
+  pose proof (WalkProofs.chain_ids_path _ _ _ Hc) as Hp.
+  apply WalkProofs.chain_ids_of_path; [|eapply path_nodup; exact Hp].
+  apply (path_ext_le (fat s)); [exact Hp | exact Hle |].
+  pose proof (WalkProofs.path_lt _ _ _ Hp) as HF. rewrite Forall_forall in HF.
+  intros x Hx. apply Hfr; [apply Hd; exact Hx | apply HF; exact Hx].
+Qed.
+
+Lemma big_ids_other_after : forall s s' id ids new_len id2 l,
+  streams_ok s -> big_ids s id ids -> fat_frame s s' id ids new_len ->
+  id2 <> id -> big_ids s id2 l -> big_ids s' id2 l.
+Proof.
+  intros s s' id ids new_len id2 l [_ Hsd] Hbig Hff Hne Hb2.
+  pose proof Hb2 as (e2 & B1 & B2 & B3 & B4).
+  pose proof Hbig as (e & A1 & _).
+  pose proof Hff as (_ & _ & _ & _ & _ & Hdirs). specialize (Hdirs e A1).
+  exists e2. csplit; try assumption.
+  - rewrite Hdirs, nthN_updN_other by lia. exact B1.
+  - eapply chain_frame; [exact Hff | exact B4 |].
+    intros x Hx Hin. exact (Hsd id id2 ids l ltac:(lia) Hbig Hb2 x Hin Hx).
+Qed.
+
+Lemma big_ids_after : forall s s' id ids new_len kept,
+  streams_ok s -> big_ids s id ids -> fat_frame s s' id ids new_len ->
+  stream_ids s' id kept ->
+  forall id2 l2, big_ids s' id2 l2 ->
+    (id2 = id /\ l2 = kept) \/ (id2 <> id /\ big_ids s id2 l2).
+Proof.
+  intros s s' id ids new_len kept Hok Hbig Hff Hsi' id2 l2 Hb2.
+  pose proof Hb2 as (e2 & B1 & B2 & B3 & B4).
+  pose proof Hbig as (e & A1 & _).
+  pose proof Hff as (_ & _ & _ & _ & _ & Hdirs). specialize (Hdirs e A1).
+  destruct (N.eq_dec id2 id) as [->|Hne].
+  - left. split; [reflexivity|]. destruct Hsi' as (e3 & C1 & _ & C2).
+    rewrite B1 in C1. injection C1 as <-. rewrite B4 in C2. injection C2 as <-. reflexivity.
+  - right. split; [exact Hne|].
+    rewrite Hdirs, nthN_updN_other in B1 by lia.
+    destruct Hok as [Hex Hsd]. destruct (Hex id2 e2 B1 B2 B3) as (l & Hl).
+    assert (Hb : big_ids s id2 l) by (exists e2; csplit; assumption).
+    pose proof (big_ids_other_after s s' id ids new_len id2 l (conj Hex Hsd) Hbig Hff Hne Hb) as Hb'.
+    rewrite (big_ids_fun _ _ _ _ Hb2 Hb'). exact Hb.
+Qed.
+
+Lemma NoDup_app_intro : forall (a b : list N),
+  NoDup a -> NoDup b -> (forall x, In x a -> ~ In x b) -> NoDup (a ++ b).
+Proof.
+  intros a b Ha Hb Hd. induction a as [|x a IH]; [exact Hb|]. cbn [app].
+  inversion Ha as [|? ? Hx Ha']; subst. constructor.
+  - intro Hin. apply in_app_or in Hin. destruct Hin as [Hin|Hin]; [contradiction|].
+    exact (Hd x (or_introl eq_refl) Hin).
+  - apply IH; [exact Ha'|]. intros y Hy. apply Hd. right. exact Hy.
+Qed.
+
+Lemma StoreWf_after_release : forall s s' id ids kept freed new_len,
+  StoreWf s -> streams_ok s -> big_ids s id ids ->
+  fat_frame s s' id ids new_len -> MINI_STREAM_CUTOFF <= new_len ->
+  AllocWf s' -> nsect s' = nsect s ->
+  stream_ids s' id kept -> (forall x, In x kept -> In x ids) ->
+  free s' = free s ++ freed -> (forall x, In x freed -> In x ids) -> NoDup freed ->
+  (forall x, In x kept -> ~ In x freed) ->
+  StoreWf s' /\ streams_ok s'.
+Proof.
+  intros s s' id ids kept freed new_len Hwf Hok Hbig Hff Hnl Wa' Hn Hsi' Hkept Hfree Hfreed Hndf Hkf.
+  pose proof Hwf as [Wa Wn Wd Wnm Wdd Wfn Wfd Wdf].
+  pose proof Hff as (Fv & Fdifat & Fds & Fle & Ffr & Fdirs).
+  pose proof Hbig as (e & He & Ht & Hcut & Hc).
+  specialize (Fdirs e He).
+  assert (Hsl : slen s' = slen s) by (unfold slen; rewrite Fv; reflexivity).
+  destruct Wd as (dids & D1 & D2 & D3).
+  pose proof (Wdd id ids dids Hbig D1) as Hdisj.
+  assert (Hdir' : dir_ids s' dids).
+  { unfold dir_ids in *. rewrite Fds. eapply chain_frame; [exact Hff | exact D1 |].
+    intros x Hx Hin. exact (Hdisj x Hin Hx). }
+  assert (Hdirfun : forall l, dir_ids s' l -> l = dids).
+  { intros l Hl. unfold dir_ids in *. rewrite Hdir' in Hl. injection Hl as <-. reflexivity. }
+  pose proof (big_ids_after s s' id ids new_len kept Hok Hbig Hff Hsi') as Hchar.
+  assert (Hids_difat : forall x, In x ids -> ~ In x (difat s)).
+  { intros x Hx Hin. destruct (Wdf x Hin) as [D _]. exact (D id ids Hbig Hx). }
+  destruct Hok as [Hex Hsd].
+  split.
+  - constructor.
+    + exact Wa'.
+    + rewrite Hn. exact Wn.
+    + exists dids. split; [exact Hdir'|]. split.
+      * destruct D2 as (Hndd & HFd & _). apply good_chain_of_wf; [exact Wa' | exact Hndd |].
+        eapply Forall_impl; [|exact HFd]. cbv beta. intros a [Ha _]. rewrite Hn. exact Ha.
+      * rewrite Fdirs, lenN_updN, Hsl. exact D3.
+    + intros i e2 He2. rewrite Fdirs in He2. destruct (N.eq_dec i id) as [->|Hne].
+      * rewrite nthN_updN_same in He2 by (eapply nthN_Some_lt; exact He).
+        injection He2 as <-. cbn [set_start_len d_name]. eapply Wnm. exact He.
+      * rewrite nthN_updN_other in He2 by lia. eapply Wnm. exact He2.
+    + intros i l dl Hb Hdl. rewrite (Hdirfun dl Hdl).
+      destruct (Hchar i l Hb) as [[-> ->]|[Hne Hb0]].
+      * intros x Hx. apply Hdisj. apply Hkept. exact Hx.
+      * exact (Wdd i l dids Hb0 D1).
+    + rewrite Hfree. apply NoDup_app_intro; [exact Wfn | exact Hndf |].
+      intros x Hx Hin. destruct (Wfd x Hx) as (F1 & _). exact (F1 id ids Hbig (Hfreed x Hin)).
+    + intros x Hx. rewrite Hfree in Hx. apply in_app_or in Hx. destruct Hx as [Hx|Hx].
+      * destruct (Wfd x Hx) as (F1 & F2 & F3). split; [|split].
+        -- intros i l Hb. destruct (Hchar i l Hb) as [[-> ->]|[Hne Hb0]].
+           ++ intro Hin. exact (F1 id ids Hbig (Hkept x Hin)).
+           ++ exact (F1 i l Hb0).
+        -- intros dl Hdl. rewrite (Hdirfun dl Hdl). exact (F2 dids D1).
+        -- rewrite Fdifat. exact F3.
+      * pose proof (Hfreed x Hx) as Hxi. split; [|split].
+        -- intros i l Hb. destruct (Hchar i l Hb) as [[-> ->]|[Hne Hb0]].
+           ++ intro Hin. exact (Hkf x Hin Hx).
+           ++ intro Hin. exact (Hsd id i ids l ltac:(lia) Hbig Hb0 x Hxi Hin).
+        -- intros dl Hdl. rewrite (Hdirfun dl Hdl). exact (Hdisj x Hxi).
+        -- rewrite Fdifat. apply Hids_difat. exact Hxi.
+    + intros f Hf. rewrite Fdifat in Hf. destruct (Wdf f Hf) as (F1 & F2). split.
+      * intros i l Hb. destruct (Hchar i l Hb) as [[-> ->]|[Hne Hb0]].
+        -- intro Hin. exact (F1 id ids Hbig (Hkept f Hin)).
+        -- exact (F1 i l Hb0).
+      * intros dl Hdl. rewrite (Hdirfun dl Hdl). exact (F2 dids D1).
+  - split.
+    + intros i e2 He2 Ht2 Hc2. destruct (N.eq_dec i id) as [->|Hne].
+      * destruct Hsi' as (e3 & C1 & _ & C2). rewrite He2 in C1. injection C1 as <-.
+        exists kept. exact C2.
+      * rewrite Fdirs, nthN_updN_other in He2 by lia.
+        destruct (Hex i e2 He2 Ht2 Hc2) as (l & Hl).
+        assert (Hb : big_ids s i l) by (exists e2; csplit; assumption).
+        destruct (big_ids_other_after s s' id ids new_len i l (conj Hex Hsd) Hbig Hff Hne Hb)
+          as (e3 & C1 & _ & _ & C2).
+        rewrite Fdirs, nthN_updN_other in C1 by lia. rewrite He2 in C1. injection C1 as <-.
+        exists l. exact C2.
+    + intros i j li lj Hij Hbi Hbj.
+      destruct (Hchar i li Hbi) as [[-> ->]|[Hni Hbi0]];
+      destruct (Hchar j lj Hbj) as [[-> ->]|[Hnj Hbj0]].
+      * contradiction.
+      * intros x Hx. exact (Hsd id j ids lj ltac:(lia) Hbig Hbj0 x (Hkept x Hx)).
+      * intros x Hx Hin. exact (Hsd id i ids li ltac:(lia) Hbig Hbi0 x (Hkept x Hin) Hx).
+      * exact (Hsd i j li lj Hij Hbi0 Hbj0).
+Qed.
+
+Lemma NoDup_app_disj : forall (a b : list N), NoDup (a ++ b) -> forall x, In x a -> ~ In x b.
+Proof.
+  intros a b H. induction a as [|y a IH]; intros x Hx; [destruct Hx|]. cbn [app] in H.
+  inversion H as [|? ? Hy H']; subst. destruct Hx as [<-|Hx].
+  - intro Hin. apply Hy. apply in_or_app. right. exact Hin.
+  - apply IH; assumption.
+Qed.
+
+Lemma In_dropN : forall A (l : list A) n x, In x (dropN n l) -> In x l.
+Proof.
+  intros A l n x H. rewrite <- (takeN_dropN_id _ l n). apply in_or_app. right. exact H.
+Qed.
+
+(* S7 for any cut point m >= 4096, on a stream whose chain has exactly the
+   sectors it needs: the truncation releases sectors, the growth takes them
+   back from the free stack (last released first) and every regained byte is
+   zero, in the kept last sector as well as in the recycled ones *)
+Theorem shrink_then_grow_zero_general : forall s id V ids m,
+  big_content s id V -> stream_ids s id ids -> StoreWf s -> streams_ok s ->
+  slen s * lenN ids < lenN V + slen s ->
+  MINI_STREAM_CUTOFF <= m -> m < lenN V ->
+  exists s1 s2,
+    resize id m s = (s1, Ok tt) /\
+    resize id (lenN V) s1 = (s2, Ok tt) /\
+    big_content s1 id (takeN m V) /\
+    big_content s2 id (takeN m V ++ repeatN 0 (lenN V - m)) /\
+    stream_ids s2 id (takeN ((slen s + m - 1) / slen s) ids
+                      ++ rev (dropN ((slen s + m - 1) / slen s) ids)) /\
+    free s2 = free s.
+Proof.
+  intros s id V ids m HB Hsi Hwf Hok Htight Hm Hlt.
+  pose proof (slen_pos s) as Hsp.
+  pose proof HB as (e & ids' & He & Ht & Hcut & Hc & Hg & Hle & HV).
+  pose proof Hsi as (e0 & He0 & _ & Hc0).
+  rewrite He in He0. injection He0 as <-. rewrite Hc in Hc0. injection Hc0 as ->.
+  pose proof (big_content_len _ _ _ _ HB He) as HlV.
+  assert (Hm0 : 0 < m) by (rewrite CUTOFF_val in Hm; lia).
+  destruct (ceil_props (slen s) m Hsp Hm0) as [Hc1 Hc2].
+  set (n' := (slen s + m - 1) / slen s) in *.
+  assert (Hn'le : n' <= lenN ids) by (unfold byte in *; nia).
+  destruct (N.eq_dec n' (lenN ids)) as [Heq|Hneq].
+  { destruct (shrink_then_grow_zero s id V ids m HB Hsi Hwf Hm Hlt ltac:(unfold byte in *; nia))
+      as (s1 & s2 & R1 & R2 & B1 & B2 & S2 & F2 & _).
+    exists s1, s2. rewrite Heq, (takeN_all _ ids), (dropN_all _ ids) by lia.
+    cbn [rev]. rewrite app_nil_r. csplit; assumption. }
+  assert (Hn'lt : n' < lenN ids) by lia.
+  assert (Hbig : big_ids s id ids) by (exists e; csplit; assumption).
+  pose proof (path_nodup _ _ _ (WalkProofs.chain_ids_path _ _ _ Hc)) as Hnd.
+  destruct (resize_big_release s id V ids m HB Hsi Hwf Hm Hn'lt)
+    as (s1 & R1 & HB1 & Hsi1 & Hf1 & Hn1 & Wa1 & _ & Hff).
+  fold n' in Hsi1, Hf1.
+  replace (m - lenN V) with 0 in HB1 by blia.
+  change (repeatN 0 0) with (@nil N) in HB1. rewrite app_nil_r in HB1.
+  set (kept := takeN n' ids) in *. set (freed := dropN n' ids) in *.
+  assert (Esplit : ids = kept ++ freed) by (symmetry; apply takeN_dropN_id).
+  rewrite Esplit in Hnd.
+  destruct (StoreWf_after_release s s1 id ids kept freed m Hwf Hok Hbig Hff Hm Wa1 Hn1 Hsi1)
+    as [Hwf1 _].
+  { intros x Hx. eapply In_takeN. exact Hx. }
+  { exact Hf1. }
+  { intros x Hx. eapply In_dropN. exact Hx. }
+  { eapply NoDup_app_r. exact Hnd. }
+  { apply NoDup_app_disj. exact Hnd. }
+  assert (Hsl1 : slen s1 = slen s).
+  { destruct Hff as (Fv & _). unfold slen. rewrite Fv. reflexivity. }
+  assert (Hlk : lenN kept = n') by (unfold kept; rewrite lenN_takeN; lia).
+  assert (Hlf : lenN freed = lenN ids - n') by (unfold freed; apply lenN_dropN).
+  assert (Hl1 : lenN (takeN m V) = m) by (rewrite lenN_takeN; blia).
+  destruct (resize_big_grow_zero_new_sectors s1 id (takeN m V) kept (lenN V) (free s) (rev freed)
+              HB1 Hsi1 Hwf1)
+    as (s2 & R2 & HB2 & Hsi2 & Hf2 & _).
+  { rewrite Hsl1, Hlk. unfold byte in *. nia. }
+  { rewrite rev_involutive. exact Hf1. }
+  { rewrite Hsl1, Hlk, WalkProofs.lenN_rev, Hlf.
+    replace (n' + (lenN ids - n')) with (lenN ids) by lia.
+    apply (N.div_unique _ _ _ (slen s + lenN V - 1 - slen s * lenN ids)); blia. }
+  rewrite Hl1 in HB2.
+  exists s1, s2. csplit; assumption.
 Qed.
 
 (* ================================================================== *)
@@ -1797,6 +2479,44 @@ Proof.
     + intros l Hl. rewrite (Hdir l Hl). exact (disjoint_b_sound _ _ C9 f Hf).
 Qed.
 
+Definition streams_ok_b (s : cstate) : bool :=
+  forallb (fun e => if is_big e then
+                      match chain_ids_of (fat s) (d_start e) with Ok _ => true | _ => false end
+                    else true) (dirs s) &&
+  forallb (fun i => forallb (fun j =>
+    if i =? j then true else
+    match nthN (dirs s) i, nthN (dirs s) j with
+    | Some ei, Some ej =>
+      if is_big ei && is_big ej then
+        match chain_ids_of (fat s) (d_start ei), chain_ids_of (fat s) (d_start ej) with
+        | Ok li, Ok lj => disjoint_b li lj
+        | _, _ => true
+        end
+      else true
+    | _, _ => true
+    end) (rangeN (lenN (dirs s)))) (rangeN (lenN (dirs s))).
+
+Lemma is_big_true : forall e, d_type e = TStream -> MINI_STREAM_CUTOFF <= d_len e -> is_big e = true.
+Proof.
+  intros e Ht Hc. unfold is_big. rewrite Ht. cbn [objtype_eqb andb]. apply N.leb_le. exact Hc.
+Qed.
+
+Lemma streams_ok_b_sound : forall s, streams_ok_b s = true -> streams_ok s.
+Proof.
+  intros s H. unfold streams_ok_b in H. apply andb_true_iff in H. destruct H as [H1 H2].
+  rewrite forallb_forall in H1, H2. split.
+  - intros id e He Ht Hc. specialize (H1 e (nthN_In _ _ _ _ He)).
+    rewrite (is_big_true e Ht Hc) in H1.
+    destruct (chain_ids_of (fat s) (d_start e)) as [l| | |]; try discriminate. exists l. reflexivity.
+  - intros i j li lj Hij (ei & A1 & A2 & A3 & A4) (ej & B1 & B2 & B3 & B4).
+    specialize (H2 i (In_rangeN _ _ (nthN_Some_lt _ _ _ _ A1))).
+    rewrite forallb_forall in H2.
+    specialize (H2 j (In_rangeN _ _ (nthN_Some_lt _ _ _ _ B1))).
+    destruct (i =? j) eqn:E; [lia|].
+    rewrite A1, B1, (is_big_true ei A2 A3), (is_big_true ej B2 B3), A4, B4 in H2.
+    cbn [andb] in H2. exact (disjoint_b_sound _ _ H2).
+Qed.
+
 From Cfb.model Require Handle Cfb.
 
 Module StoreExamples.
@@ -1837,7 +2557,15 @@ Module StoreExamples.
   Example sx_content : big_content sx 1 Vx /\ stream_ids sx 1 idsx.
   Proof.
     eapply (big_content_check sx 1 Vx idsx _ sx_wf).
-    all: vm_compute; reflexivity.
+    (* one goal at a time: the first one instantiates the entry *)
+    - vm_compute. reflexivity.
+    - vm_compute. reflexivity.
+    - vm_compute. reflexivity.
+    - vm_compute. reflexivity.
+    - vm_compute. reflexivity.
+    - vm_compute. reflexivity.
+    - vm_compute. reflexivity.
+    - vm_compute. reflexivity.
   Qed.
 
   (* S7 on this state: 5000 -> 4700 -> 5000; the 300 bytes regained are zeros *)
@@ -1848,7 +2576,7 @@ Module StoreExamples.
   Proof.
     destruct sx_content as [HB Hsi].
     destruct (shrink_then_grow_zero sx 1 Vx idsx 4700 HB Hsi sx_wf)
-      as (s1 & s2 & R1 & R2 & _ & HB2).
+      as (s1 & s2 & R1 & R2 & _ & HB2 & _).
     - rewrite CUTOFF_val. lia.
     - unfold Vx. rewrite lenN_repeatN. lia.
     - vm_compute. reflexivity.
@@ -1909,4 +2637,86 @@ Module StoreExamples.
         by (rewrite lenN_takeN; unfold Vx; rewrite lenN_repeatN; reflexivity).
       exists s'. split; [exact R'|]. split; [exact HB'|]. split; [exact Hsi' | exact Hf'].
   Qed.
+  (* S6, append case, on sx (empty free stack, 12 sectors, FAT sector 0 with
+     128 cells): 5000 -> 6000 appends sectors 12 and 13 *)
+  Example sx_grow_append :
+    exists s', resize 1 6000 sx = (s', Ok tt) /\
+               big_content s' 1 (Vx ++ repeatN 0 1000) /\
+               stream_ids s' 1 (idsx ++ [12; 13]) /\ nsect s' = 14.
+  Proof.
+    destruct sx_content as [HB Hsi].
+    assert (En : nsect sx = 12) by (vm_compute; reflexivity).
+    assert (Ef : fat_per_sector sx = 128) by (vm_compute; reflexivity).
+    destruct (resize_big_grow_zero_append sx 1 Vx idsx 6000 2 HB Hsi sx_wf)
+      as (s' & R & HB' & Hsi' & _ & Hn' & _).
+    - vm_compute. reflexivity.
+    - vm_compute. reflexivity.
+    - intros f Hf. assert (Ed : difat sx = [0]) by (vm_compute; reflexivity).
+      rewrite Ed in Hf. destruct Hf as [<-|[]]. rewrite En. lia.
+    - vm_compute. reflexivity.
+    - vm_compute. reflexivity.
+    - rewrite En, MAXREG_val. lia.
+    - intros j Hj. rewrite En, Ef. change (N.of_nat 2) with 2 in Hj. lia.
+    - unfold Vx in HB'. rewrite lenN_repeatN in HB'. rewrite En in Hsi', Hn'.
+      exists s'. split; [exact R|]. split; [exact HB'|]. split; [exact Hsi' | exact Hn'].
+  Qed.
+
+  (* S7 for a cut that releases sectors: 5000 -> 4096 -> 5000 *)
+  Example sx_streams_ok : streams_ok sx.
+  Proof. apply streams_ok_b_sound. vm_compute. reflexivity. Qed.
+
+  Example sx_shrink_grow_general :
+    exists s1 s2,
+      resize 1 4096 sx = (s1, Ok tt) /\ resize 1 5000 s1 = (s2, Ok tt) /\
+      big_content s2 1 (takeN 4096 Vx ++ repeatN 0 904) /\
+      stream_ids s2 1 [2; 3; 4; 5; 6; 7; 8; 9; 11; 10] /\ free s2 = [].
+  Proof.
+    destruct sx_content as [HB Hsi].
+    destruct (shrink_then_grow_zero_general sx 1 Vx idsx 4096 HB Hsi sx_wf sx_streams_ok)
+      as (s1 & s2 & R1 & R2 & _ & HB2 & Hsi2 & Hf2).
+    - unfold Vx. rewrite lenN_repeatN. vm_compute. reflexivity.
+    - rewrite CUTOFF_val. lia.
+    - unfold Vx. rewrite lenN_repeatN. lia.
+    - unfold Vx in R2, HB2. rewrite lenN_repeatN in R2, HB2.
+      replace ((slen sx + 4096 - 1) / slen sx) with 8 in Hsi2 by (vm_compute; reflexivity).
+      assert (Ef : free sx = []) by (vm_compute; reflexivity). rewrite Ef in Hf2.
+      exists s1, s2. split; [exact R1|]. split; [exact R2|]. split; [exact HB2|].
+      split; [exact Hsi2 | exact Hf2].
+  Qed.
 End StoreExamples.
+
+(* ------------------------------------------------------------------ *)
+Check read_data_big.
+Check write_data_big_inplace.
+Check write_data_big_grow_within_chain.
+Check resize_big_shrink_same_count.
+Check resize_big_shrink.
+Check resize_big_no_alloc.
+Check resize_big_grow_zero_within_chain.
+Check resize_big_grow_zero_tight.
+Check resize_big_grow_zero_new_sectors.
+Check resize_big_grow_zero_append.
+Check resize_big_grow_zero_append_FatInv.
+Check shrink_then_grow_zero.
+Check shrink_then_grow_zero_general.
+Check StoreWf_after_release.
+Check storewf_b_sound.
+Print Assumptions read_data_big.
+Print Assumptions write_data_big_inplace.
+Print Assumptions write_data_big_grow_within_chain.
+Print Assumptions resize_big_shrink_same_count.
+Print Assumptions resize_big_shrink.
+Print Assumptions resize_big_no_alloc.
+Print Assumptions resize_big_grow_zero_within_chain.
+Print Assumptions resize_big_grow_zero_new_sectors.
+Print Assumptions resize_big_grow_zero_append.
+Print Assumptions resize_big_grow_zero_append_FatInv.
+Print Assumptions shrink_then_grow_zero.
+Print Assumptions shrink_then_grow_zero_general.
+Print Assumptions StoreWf_after_release.
+Print Assumptions StoreExamples.sx_wf.
+Print Assumptions StoreExamples.sx_shrink_grow.
+Print Assumptions StoreExamples.without_zero_fill_stale.
+Print Assumptions StoreExamples.sy_regrow_zero.
+Print Assumptions StoreExamples.sx_grow_append.
+Print Assumptions StoreExamples.sx_shrink_grow_general.
